@@ -70,40 +70,40 @@ theorem some_ne_none_b : Kind.some.b ≠ Kind.none.b := fun h => none_ne_some_b 
 
 set_option maxHeartbeats 400000 in
 mutual
-theorem dec_encRaw (utf8 : Bool) (ep : Epoch) : ∀ (v : Value) (d : Nat) (rest : Bytes) (fuel : Nat),
+theorem dec_encRaw (cfg : DecCfg) (ep : Epoch) (hv2 : ep = .v2 → cfg.v2 = true) : ∀ (v : Value) (d : Nat) (rest : Bytes) (fuel : Nat),
     v.WF → d + v.depth ≤ maxValueDepth → 2 * (encRaw ep v).length + 1 ≤ fuel →
-    dec utf8 fuel (encRaw ep v ++ rest) d = .ok (v, rest)
+    dec cfg fuel (encRaw ep v ++ rest) d = .ok (v, rest)
   | v, d, rest, 0, _, _, hf => by omega
   | .none, d, rest, f + 1, hw, hd, hf => by
     simp only [Value.depth] at hd
     have hd' : ¬ d + 1 > maxValueDepth := by omega
-    simp [encRaw, dec, hd', classify_b Kind.none (by decide)]
+    simp [encRaw, dec, hd', classifyC_b cfg Kind.none (by decide) (by intro h; simp [Kind.isV2] at h)]
   | .some v, d, rest, f + 1, hw, hd, hf => by
     simp only [Value.depth] at hd
     simp only [Value.WF] at hw
     have hd' : ¬ d + 1 > maxValueDepth := by omega
-    have ih := dec_encRaw utf8 ep v (d + 1) rest f hw (by omega) (by simp [encRaw] at hf; omega)
-    simp [encRaw, dec, hd', classify_b Kind.some (by decide), ih]
+    have ih := dec_encRaw cfg ep hv2 v (d + 1) rest f hw (by omega) (by simp [encRaw] at hf; omega)
+    simp [encRaw, dec, hd', classifyC_b cfg Kind.some (by decide) (by intro h; simp [Kind.isV2] at h), ih]
   | .bool b, d, rest, f + 1, hw, hd, hf => by
     simp only [Value.depth] at hd
     have hd' : ¬ d + 1 > maxValueDepth := by omega
-    cases b <;> simp [encRaw, dec, hd', classify_b Kind.bool (by decide)]
+    cases b <;> simp [encRaw, dec, hd', classifyC_b cfg Kind.bool (by decide) (by intro h; simp [Kind.isV2] at h)]
   | .int t i, d, rest, f + 1, hw, hd, hf => by
     simp only [Value.depth] at hd
     simp only [Value.WF] at hw
     have hd' : ¬ d + 1 > maxValueDepth := by omega
-    simp [encRaw, dec, hd', classify_b (Kind.int t) (by cases t <;> decide), decInt_encInt t i hw]
+    simp [encRaw, dec, hd', classifyC_b cfg (Kind.int t) (by cases t <;> decide) (by intro h; simp [Kind.isV2] at h), decInt_encInt t i hw]
   | .fixed k s, d, rest, f + 1, hw, hd, hf => by
     simp only [Value.depth] at hd
     simp only [Value.WF] at hw
     have hd' : ¬ d + 1 > maxValueDepth := by omega
-    simp [encRaw, dec, hd', classify_b (Kind.fixed k) (by cases k <;> decide), takeN_append' s rest _ hw]
+    simp [encRaw, dec, hd', classifyC_b cfg (Kind.fixed k) (by cases k <;> decide) (by intro h; simp [Kind.isV2] at h), takeN_append' s rest _ hw]
   | .string s, d, rest, f + 1, hw, hd, hf => by
     simp only [Value.depth] at hd
     simp only [Value.WF] at hw
     have hd' : ¬ d + 1 > maxValueDepth := by omega
     simp only [encRaw, List.cons_append, List.append_assoc, dec, hd', ↓reduceIte,
-      classify_b Kind.string (by decide)]
+      classifyC_b cfg Kind.string (by decide) (by intro h; simp [Kind.isV2] at h)]
     rw [getVarint_putVarint 4 _ (by omega) (by omega) (u32_lt _ hw.1)]
     simp [takeN_append, hw.2]
   | .bytes s, d, rest, f + 1, hw, hd, hf => by
@@ -113,7 +113,7 @@ theorem dec_encRaw (utf8 : Bool) (ep : Epoch) : ∀ (v : Value) (d : Nat) (rest 
     cases ep with
     | v1 =>
       simp only [encRaw, List.cons_append, List.append_assoc, dec, hd', ↓reduceIte,
-        classify_b Kind.bytes1 (by decide)]
+        classifyC_b cfg Kind.bytes1 (by decide) (by intro h; simp [Kind.isV2] at h)]
       rw [getVarint_putVarint 4 _ (by omega) (by omega) (u32_lt _ hw)]
       simp
     | v2 =>
@@ -122,7 +122,7 @@ theorem dec_encRaw (utf8 : Bool) (ep : Epoch) : ∀ (v : Value) (d : Nat) (rest 
       · rename_i he
         simp only [List.isEmpty_iff] at he
         subst he
-        simp only [List.cons_append, dec, hd', ↓reduceIte, classify_b Kind.bytes2 (by decide)]
+        simp only [List.cons_append, dec, hd', ↓reduceIte, classifyC_b cfg Kind.bytes2 (by decide) (fun _ => hv2 rfl)]
         cases f with
         | zero => simp [encRaw] at hf
         | succ f =>
@@ -133,7 +133,7 @@ theorem dec_encRaw (utf8 : Bool) (ep : Epoch) : ∀ (v : Value) (d : Nat) (rest 
         have hne : s ≠ [] := by simpa using he
         have hpos : 0 < s.length := List.length_pos_iff.mpr hne
         simp only [List.cons_append, List.append_assoc, dec, hd', ↓reduceIte,
-          classify_b Kind.bytes2 (by decide)]
+          classifyC_b cfg Kind.bytes2 (by decide) (fun _ => hv2 rfl)]
         have hvl := putVarint_length_pos 4 s.length
         simp only [encRaw, he, Bool.false_eq_true, ↓reduceIte, List.length_cons, List.length_append] at hf
         cases f with
@@ -158,14 +158,14 @@ theorem dec_encRaw (utf8 : Bool) (ep : Epoch) : ∀ (v : Value) (d : Nat) (rest 
     cases ep with
     | v1 =>
       simp only [encRaw, List.cons_append, List.append_assoc, dec, hd', ↓reduceIte,
-        classify_b Kind.vec1 (by decide)]
+        classifyC_b cfg Kind.vec1 (by decide) (by intro h; simp [Kind.isV2] at h)]
       rw [getVarint_putVarint 4 _ (by omega) (by omega) (u32_lt _ hw.1)]
-      have ih := decElems1_encRaw utf8 vs (d + 1) rest f hw.2 (by omega)
+      have ih := decElems1_encRaw cfg vs (d + 1) rest f hw.2 (by omega)
         (by simp [encRaw] at hf; omega)
       simp [ih]
     | v2 =>
-      simp only [encRaw, List.cons_append, dec, hd', ↓reduceIte, classify_b Kind.vec2 (by decide)]
-      have ih := decElems2_encRaw utf8 vs (d + 1) rest f hw.2 (by omega)
+      simp only [encRaw, List.cons_append, dec, hd', ↓reduceIte, classifyC_b cfg Kind.vec2 (by decide) (fun _ => hv2 rfl)]
+      have ih := decElems2_encRaw cfg (hv2 rfl) vs (d + 1) rest f hw.2 (by omega)
         (by simp [encRaw] at hf; omega)
       simp [ih]
   | .map kt es, d, rest, f + 1, hw, hd, hf => by
@@ -175,15 +175,15 @@ theorem dec_encRaw (utf8 : Bool) (ep : Epoch) : ∀ (v : Value) (d : Nat) (rest 
     cases ep with
     | v1 =>
       simp only [encRaw, List.cons_append, List.append_assoc, dec, hd', ↓reduceIte,
-        classify_b (Kind.map1 kt) (by cases kt with | int t => cases t <;> decide | _ => decide)]
+        classifyC_b cfg (Kind.map1 kt) (by cases kt with | int t => cases t <;> decide | _ => decide) (by intro h; simp [Kind.isV2] at h)]
       rw [getVarint_putVarint 4 _ (by omega) (by omega) (u32_lt _ hw.1)]
-      have ih := decEntries1_encRaw utf8 kt es (d + 1) rest f hw.2 (by omega)
+      have ih := decEntries1_encRaw cfg kt es (d + 1) rest f hw.2 (by omega)
         (by simp [encRaw] at hf; omega)
       simp [ih]
     | v2 =>
       simp only [encRaw, List.cons_append, dec, hd', ↓reduceIte,
-        classify_b (Kind.map2 kt) (by cases kt with | int t => cases t <;> decide | _ => decide)]
-      have ih := decEntries2_encRaw utf8 kt es (d + 1) rest f hw.2 (by omega)
+        classifyC_b cfg (Kind.map2 kt) (by cases kt with | int t => cases t <;> decide | _ => decide) (fun _ => hv2 rfl)]
+      have ih := decEntries2_encRaw cfg (hv2 rfl) kt es (d + 1) rest f hw.2 (by omega)
         (by simp [encRaw] at hf; omega)
       simp [ih]
   | .set kt ks, d, rest, f + 1, hw, hd, hf => by
@@ -195,28 +195,28 @@ theorem dec_encRaw (utf8 : Bool) (ep : Epoch) : ∀ (v : Value) (d : Nat) (rest 
     cases ep with
     | v1 =>
       simp only [encRaw, List.cons_append, List.append_assoc, dec, hd', ↓reduceIte,
-        classify_b (Kind.set1 kt) (by cases kt with | int t => cases t <;> decide | field => exact absurd rfl hkt | _ => decide)]
+        classifyC_b cfg (Kind.set1 kt) (by cases kt with | int t => cases t <;> decide | field => exact absurd rfl hkt | _ => decide) (by intro h; simp [Kind.isV2] at h)]
       rw [getVarint_putVarint 4 _ (by omega) (by omega) (u32_lt _ hw.2.1)]
-      have ih := encKeys_v1_dec utf8 kt ks rest f hw.2.2 (by simp [encRaw] at hf; omega)
+      have ih := encKeys_v1_dec cfg.utf8 kt ks rest f hw.2.2 (by simp [encRaw] at hf; omega)
       simp [ih]
     | v2 =>
       simp only [encRaw, List.cons_append, dec, hd', ↓reduceIte,
-        classify_b (Kind.set2 kt) (by cases kt with | int t => cases t <;> decide | field => exact absurd rfl hkt | _ => decide)]
-      have ih := encKeys_v2_dec utf8 kt ks rest f hw.2.2 (by simp [encRaw] at hf; omega)
+        classifyC_b cfg (Kind.set2 kt) (by cases kt with | int t => cases t <;> decide | field => exact absurd rfl hkt | _ => decide) (fun _ => hv2 rfl)]
+      have ih := encKeys_v2_dec cfg.utf8 kt ks rest f hw.2.2 (by simp [encRaw] at hf; omega)
       simp [ih]
   | .enum id v, d, rest, f + 1, hw, hd, hf => by
     simp only [Value.depth] at hd
     simp only [Value.WF] at hw
     have hd' : ¬ d + 1 > maxValueDepth := by omega
-    have ih := dec_encRaw utf8 ep v (d + 1) rest f hw.2 (by omega) (by simp [encRaw] at hf; omega)
+    have ih := dec_encRaw cfg ep hv2 v (d + 1) rest f hw.2 (by omega) (by simp [encRaw] at hf; omega)
     simp only [encRaw, List.cons_append, List.append_assoc, dec, hd', ↓reduceIte,
-      classify_b Kind.enum (by decide)]
+      classifyC_b cfg Kind.enum (by decide) (by intro h; simp [Kind.isV2] at h)]
     rw [getVarint_putVarint 4 _ (by omega) (by omega) (u32_lt _ hw.1)]
     simp [ih]
 
-theorem decElems1_encRaw (utf8 : Bool) : ∀ (vs : List Value) (d : Nat) (rest : Bytes) (fuel : Nat),
+theorem decElems1_encRaw (cfg : DecCfg) : ∀ (vs : List Value) (d : Nat) (rest : Bytes) (fuel : Nat),
     WFList vs → d + depthList vs ≤ maxValueDepth + 1 - 1 → 2 * (encElemsRaw .v1 vs).length + 2 ≤ fuel →
-    decElems1 utf8 fuel vs.length (encElemsRaw .v1 vs ++ rest) d = .ok (vs, rest)
+    decElems1 cfg fuel vs.length (encElemsRaw .v1 vs ++ rest) d = .ok (vs, rest)
   | vs, d, rest, 0, _, _, hf => by omega
   | [], d, rest, f + 1, _, _, _ => by simp [decElems1, encElemsRaw]
   | v :: vs, d, rest, f + 1, hw, hd, hf => by
@@ -224,26 +224,26 @@ theorem decElems1_encRaw (utf8 : Bool) : ∀ (vs : List Value) (d : Nat) (rest :
     simp only [depthList] at hd
     have hp := encRaw_length_pos .v1 v
     simp only [encElemsRaw, List.length_append] at hf
-    have ih1 := dec_encRaw utf8 .v1 v d (encElemsRaw .v1 vs ++ rest) f hw.1 (by omega) (by omega)
-    have ih2 := decElems1_encRaw utf8 vs d rest f hw.2 (by omega) (by omega)
+    have ih1 := dec_encRaw cfg .v1 (by intro h; cases h) v d (encElemsRaw .v1 vs ++ rest) f hw.1 (by omega) (by omega)
+    have ih2 := decElems1_encRaw cfg vs d rest f hw.2 (by omega) (by omega)
     simp [decElems1, encElemsRaw, ih1, ih2]
 
-theorem decElems2_encRaw (utf8 : Bool) : ∀ (vs : List Value) (d : Nat) (rest : Bytes) (fuel : Nat),
+theorem decElems2_encRaw (cfg : DecCfg) (hc : cfg.v2 = true) : ∀ (vs : List Value) (d : Nat) (rest : Bytes) (fuel : Nat),
     WFList vs → d + depthList vs ≤ maxValueDepth + 1 - 1 → 2 * (encElemsRaw .v2 vs).length + 2 ≤ fuel →
-    decElems2 utf8 fuel (encElemsRaw .v2 vs ++ rest) d = .ok (vs, rest)
+    decElems2 cfg fuel (encElemsRaw .v2 vs ++ rest) d = .ok (vs, rest)
   | vs, d, rest, 0, _, _, hf => by omega
   | [], d, rest, f + 1, _, _, _ => by simp [decElems2, encElemsRaw]
   | v :: vs, d, rest, f + 1, hw, hd, hf => by
     simp only [WFList] at hw
     simp only [depthList] at hd
     simp only [encElemsRaw, List.length_cons, List.length_append] at hf
-    have ih1 := dec_encRaw utf8 .v2 v d (encElemsRaw .v2 vs ++ rest) f hw.1 (by omega) (by omega)
-    have ih2 := decElems2_encRaw utf8 vs d rest f hw.2 (by omega) (by omega)
+    have ih1 := dec_encRaw cfg .v2 (fun _ => hc) v d (encElemsRaw .v2 vs ++ rest) f hw.1 (by omega) (by omega)
+    have ih2 := decElems2_encRaw cfg hc vs d rest f hw.2 (by omega) (by omega)
     simp [decElems2, encElemsRaw, some_ne_none_b, ih1, ih2]
 
-theorem decEntries1_encRaw (utf8 : Bool) (kt : KeyTy) : ∀ (es : List (Key × Value)) (d : Nat) (rest : Bytes) (fuel : Nat),
+theorem decEntries1_encRaw (cfg : DecCfg) (kt : KeyTy) : ∀ (es : List (Key × Value)) (d : Nat) (rest : Bytes) (fuel : Nat),
     WFEntries kt es → d + depthEntries es ≤ maxValueDepth + 1 - 1 → 2 * (encEntriesRaw .v1 kt es).length + 2 ≤ fuel →
-    decEntries1 utf8 kt fuel es.length (encEntriesRaw .v1 kt es ++ rest) d = .ok (es, rest)
+    decEntries1 cfg kt fuel es.length (encEntriesRaw .v1 kt es ++ rest) d = .ok (es, rest)
   | es, d, rest, 0, _, _, hf => by omega
   | [], d, rest, f + 1, _, _, _ => by simp [decEntries1, encEntriesRaw]
   | (k, v) :: es, d, rest, f + 1, hw, hd, hf => by
@@ -251,22 +251,22 @@ theorem decEntries1_encRaw (utf8 : Bool) (kt : KeyTy) : ∀ (es : List (Key × V
     simp only [depthEntries] at hd
     have hp := encRaw_length_pos .v1 v
     simp only [encEntriesRaw, List.length_append] at hf
-    have ih1 := dec_encRaw utf8 .v1 v d (encEntriesRaw .v1 kt es ++ rest) f hw.2.1 (by omega) (by omega)
-    have ih2 := decEntries1_encRaw utf8 kt es d rest f hw.2.2 (by omega) (by omega)
-    simp [decEntries1, encEntriesRaw, decKey_encKey utf8 kt k hw.1, ih1, ih2]
+    have ih1 := dec_encRaw cfg .v1 (by intro h; cases h) v d (encEntriesRaw .v1 kt es ++ rest) f hw.2.1 (by omega) (by omega)
+    have ih2 := decEntries1_encRaw cfg kt es d rest f hw.2.2 (by omega) (by omega)
+    simp [decEntries1, encEntriesRaw, decKey_encKey cfg.utf8 kt k hw.1, ih1, ih2]
 
-theorem decEntries2_encRaw (utf8 : Bool) (kt : KeyTy) : ∀ (es : List (Key × Value)) (d : Nat) (rest : Bytes) (fuel : Nat),
+theorem decEntries2_encRaw (cfg : DecCfg) (hc : cfg.v2 = true) (kt : KeyTy) : ∀ (es : List (Key × Value)) (d : Nat) (rest : Bytes) (fuel : Nat),
     WFEntries kt es → d + depthEntries es ≤ maxValueDepth + 1 - 1 → 2 * (encEntriesRaw .v2 kt es).length + 2 ≤ fuel →
-    decEntries2 utf8 kt fuel (encEntriesRaw .v2 kt es ++ rest) d = .ok (es, rest)
+    decEntries2 cfg kt fuel (encEntriesRaw .v2 kt es ++ rest) d = .ok (es, rest)
   | es, d, rest, 0, _, _, hf => by omega
   | [], d, rest, f + 1, _, _, _ => by simp [decEntries2, encEntriesRaw]
   | (k, v) :: es, d, rest, f + 1, hw, hd, hf => by
     simp only [WFEntries] at hw
     simp only [depthEntries] at hd
     simp only [encEntriesRaw, List.length_cons, List.length_append] at hf
-    have ih1 := dec_encRaw utf8 .v2 v d (encEntriesRaw .v2 kt es ++ rest) f hw.2.1 (by omega) (by omega)
-    have ih2 := decEntries2_encRaw utf8 kt es d rest f hw.2.2 (by omega) (by omega)
-    simp [decEntries2, encEntriesRaw, some_ne_none_b, decKey_encKey utf8 kt k hw.1, ih1, ih2]
+    have ih1 := dec_encRaw cfg .v2 (fun _ => hc) v d (encEntriesRaw .v2 kt es ++ rest) f hw.2.1 (by omega) (by omega)
+    have ih2 := decEntries2_encRaw cfg hc kt es d rest f hw.2.2 (by omega) (by omega)
+    simp [decEntries2, encEntriesRaw, some_ne_none_b, decKey_encKey cfg.utf8 kt k hw.1, ih1, ih2]
 end
 
 end Aldrin
